@@ -33,9 +33,31 @@ def lemma_names():
     return re.findall(r"proof fn (lemma_\w+)", src)
 
 
+TRUST_TOKENS = ("assume(", "admit(", "external_body", "assume_specification", "#[verifier::external", "#[verifier(external")
+USED = []
+
+
+def trusted_tokens():
+    """Mechanical scan of the lemma file for anything Verus would take on trust."""
+    hits = []
+    if os.path.exists(LEMMA_FILE):
+        for k, line in enumerate(open(LEMMA_FILE).read().split("\n")):
+            code = line.split("//")[0]
+            for t in TRUST_TOKENS:
+                if t in code:
+                    hits.append("%s:%d: %s" % (os.path.basename(LEMMA_FILE), k + 1, code.strip()[:100]))
+    return hits
+
+
 def run_lemmas(prop, groups):
     """One obligation per lemma whose name contains one of `groups` (e.g. 'fold', 'tree', 'semilattice')."""
     rc, out, secs, info = _verify()
+    USED.append(LEMMA_FILE)
+    trusted = trusted_tokens()
+    if trusted:
+        # an assumption entered the lemma file: nothing in it counts as proved until it is accounted for
+        return [Obligation("%s.VL.lemmas" % prop, "contracts/lemmas/history.rs", "verus", UNDECIDED, secs,
+                           "trusted constructs in the lemma file: " + "; ".join(trusted[:5]), kind="lemma")]
     names = [n for n in (lemma_names() if os.path.exists(LEMMA_FILE) else []) if any(g in n for g in groups)]
     obs = []
     vr = info.get("verification-results", {}) if isinstance(info, dict) else {}
